@@ -125,7 +125,7 @@ func (r *Run) RunChildren(self string, batches, per, par int, wd time.Duration, 
 						r.Sample(x)
 					}
 				case strings.HasPrefix(line, "INCONCLUSIVE "):
-					r.Inconclusive(line[13:])
+					r.InconclusiveCase(line[13:])
 				case strings.HasPrefix(line, "STEP "):
 					steps = append(steps, line[5:])
 					if len(steps) > 40 {
@@ -152,7 +152,7 @@ func (r *Run) RunChildren(self string, batches, per, par int, wd time.Duration, 
 			w := map[string]interface{}{"child_seed": cs, "last_steps": steps, "stderr": tail, "exit": fmt.Sprint(werr)}
 			switch site, crashed := CrashSite(es); {
 			case timedOut:
-				r.Inconclusive(fmt.Sprintf("child %d exceeded its watchdog (%s); last step: %v", b, wd, lastOf(steps)))
+				r.InconclusiveCase(fmt.Sprintf("child %d exceeded its watchdog (%s); last step: %v", b, wd, lastOf(steps)))
 			case crashed:
 				r.Violation("process-crash-in:"+site, w)
 			case strings.Contains(es, "panic:") || strings.Contains(es, "fatal error:"):
